@@ -66,12 +66,6 @@ Qed.
 
 (* admissible facet: three vertex numbers in range, the three vertices not
    (almost) collinear in the code's sense, the centroid off the plane *)
-Definition facet_admissible (vs : list pt) (cen : pt) (f : list nat) : Prop :=
-  exists i1 i2 i3 rest p1 p2 p3,
-    f = i1 :: i2 :: i3 :: rest /\
-    nth_error vs i1 = Some p1 /\ nth_error vs i2 = Some p2 /\ nth_error vs i3 = Some p3 /\
-    let n := cross (vsub p1 p2) (vsub p1 p3) in
-    1 / 10000000000 < norm2 n /\ dot n (vsub cen p1) <> 0.
 
 Lemma nth_error_nth {A} (l : list A) i x d : nth_error l i = Some x -> nth i l d = x.
 Proof. revert i. induction l; intros [|i]; cbn; intros; try discriminate; [congruence|auto]. Qed.
@@ -153,8 +147,6 @@ Proof.
     destruct Hf as (i1 & i2 & i3 & rest & _ & _ & _ & -> & _). exact Fe.
 Qed.
 
-(* the card: eight vertices and six descriptors *)
-Definition flat (V : list pt) : list R := concat (map pl V).
 
 Lemma vertices_read (V : list pt) :
   List.length V = 8%nat ->
@@ -163,10 +155,6 @@ Proof.
   intros H. do 9 (destruct V as [|[[? ?] ?] V]; try discriminate). reflexivity.
 Qed.
 
-Definition arb_facet_lists (descr : list N) : list (list nat) :=
-  filter (fun f => negb (is_nil f)) (map parse_facet descr).
-Definition arb_nvert (descr : list N) : nat :=
-  List.length (nodup_nat (concat (arb_facet_lists descr))).
 
 Theorem arb_facets_ok (V : list pt) (descr : list N) :
   List.length V = 8%nat -> List.length descr = 6%nat ->
